@@ -61,6 +61,14 @@ def fresh_scheduler(ctl=None):
     return sched
 
 
+def sibling_scheduler(sched, ctl=None):
+    """a new Scheduler object on the same (already loaded) backend: a later `redun run` against the same database"""
+    s2 = Scheduler(config=sched.config, backend=sched.backend)
+    if ctl is not None:
+        ctl.attach(s2)
+    return s2
+
+
 def free_scheduler(db_uri="sqlite:///:memory:", mode="thread"):
     if db_uri == "sqlite:///:memory:":
         s = fresh_scheduler()
